@@ -20,7 +20,7 @@ class C17(PureCheck):
     pid = "C17"
     rule = ("every string of length <=4 (quick) / <=5 (thorough) over the 13-symbol alphabet {a, newline, ESC, 0x9B, '[', "
             "'1', '3', ';', '?', space, 'm', 'H', 'K'} plus seeded random strings of length 5..10 over it and a corpus of "
-            "real-world samples (pygments-style, ESC[m, 38;5;n, cursor moves, OSC, truncated/nested sequences); fmtstr and "
+            "real-world samples (pygments-style, ESC[m, 38;5;n, cursor moves, OSC, truncated/nested sequences) and numeric control sequences with every parameter list of <=2 (thorough <=3, plus sampled longer ones) over a 22-number vocabulary (SGR codes supported and not, 38/48/58 selectors cut off at every point, empty parameters); fmtstr and "
             "FmtStr.from_str alternately; the result text is validated by TLC against the ECMA-48 scanner of Scan.tla. "
             "distinct_nontrivial = distinct inputs containing an introducer (ESC or 0x9B)")
     exhaustive = {"quick": False, "thorough": False}
@@ -41,6 +41,19 @@ class C17(PureCheck):
         for k in range(40000 if tier == "quick" else 400000):
             n = rng.randrange(5, 11)
             yield {"op": "any", "s": enc.enc_text("".join(rng.choices(ALPHA, weights, k=n))), "via": k % 2}
+        # numeric control sequences whose parameters come from a vocabulary of numbers that mean something to some
+        # terminal (SGR codes supported and not, the extended-colour selectors 38 / 48 / 58 with their sub-parameters
+        # cut off at every point, empty parameters): every list of <= 2 (thorough: <= 3), sampled longer ones
+        vocab = ["", "0", "1", "2", "3", "4", "5", "7", "8", "9", "21", "22", "30", "38", "39", "48", "49", "58", "90", "100", "107", "255"]
+        lists = [[]] + [[a] for a in vocab] + [[a, b] for a in vocab for b in vocab]
+        if tier == "thorough":
+            lists += [[a, b, c] for a in vocab for b in vocab for c in vocab]
+        for _ in range(1500 if tier == "quick" else 20000):
+            lists.append([rng.choice(vocab) for _ in range(rng.randrange(3, 7))])
+        for k, ps in enumerate(lists):
+            intro = "\x1b[" if k % 3 else "\x9b"
+            fin = "m" if k % 5 else rng.choice("HKAJ")
+            yield {"op": "any", "s": enc.enc_text("a" + intro + ";".join(ps) + fin + "b\x1b[0mc"), "via": k % 2}
         for s in CORPUS:
             yield {"op": "any", "s": enc.enc_text(s), "via": 0}
             yield {"op": "any", "s": enc.enc_text(s), "via": 1}
